@@ -28,6 +28,7 @@ REQUIRED = [
     "py: gx1 square", "py: gx1 non-square", "py: sign flip applied (sgn0(sqrt) != sgn0(u), y negated)",
 ]
 
+MAX_SIGNATURES = 40
 SUITE_PRM = {}
 SUITES = {}
 
@@ -67,7 +68,7 @@ class Out:
             v["count"] += 1
             if len(json.dumps(detail)) < len(json.dumps(v["detail"])):   # keep the smallest witness
                 v["detail"], v["item"] = detail, item
-        else:
+        elif len(self.violations) < MAX_SIGNATURES:
             self.violations[sig] = {"signature": sig, "count": 1, "detail": detail, "item": item}
 
     def sample(self, key, v):
@@ -88,7 +89,7 @@ class Out:
                 mine["count"] += v["count"]
                 if len(json.dumps(v["detail"])) < len(json.dumps(mine["detail"])):
                     mine["detail"], mine["item"] = v["detail"], v["item"]
-            else:
+            elif len(self.violations) < MAX_SIGNATURES:
                 self.violations[k] = v
         self.harness_errors += o.harness_errors
         for k, v in o.samples.items():
@@ -167,7 +168,9 @@ def check_h2f(out, ev):
     if len(u_rec) != count:
         out.harness_errors.append(f"h2f event with {len(u_rec)} elements, count {count}")
         return
-    check_u(out, ev, label, msg, dst, hname, p, m, k, count, u_rec, f"h2c/{label}/hash_to_field/value")
+    # signature keyed on the hash function only (the field / k / count are in the detail): a defect of the
+    # generic expander shows up under a handful of signatures instead of one per configuration
+    check_u(out, ev, label, msg, dst, hname, p, m, k, count, u_rec, f"h2c/{hname}/hash_to_field/value")
 
 
 def check_xof_h2f(out, ev):
@@ -184,7 +187,7 @@ def check_xof_h2f(out, ev):
     u_rec = norm_u(ev["u"], m)
     if ref != u_rec:
         bad = next(i for i in range(count) if i >= len(u_rec) or ref[i] != u_rec[i])
-        out.violation(f"h2c/{label}/xof_hash_to_field/value",
+        out.violation(f"h2c/{ev['xof']}/xof_hash_to_field/value",
                       {"config": label, "input": ev["input"], "count": count, "first_bad_index": bad,
                        "expected": [str(c) for c in ref[bad]]}, ev.get("item", ""))
 
@@ -285,28 +288,31 @@ def check_hash(out, ev, full):
         out.cls("py: final-stage comparison skipped by sampling")
         return
     try:
-        Rsum = E.add(Qs[0], Qs[1])
-        Pref = S.clear_cofactor(Rsum)
+        Pref = E.add_then_mul(Qs[0], Qs[1], S.h_eff)
     except R.IncompleteAddition:
-        out.cls("py: final stage skipped (unified Edwards addition undefined for this pair)")
+        out.cls("py: final stage skipped (h_eff * (Q0 + Q1) has no affine Edwards coordinates)")
         return
     out.cls("py: final-stage comparison done (P = h_eff * (Q0 + Q1))")
     out.cls("py: Q0 = Q1 (doubling in the final addition)", E.eq(Qs[0], Qs[1]) if None not in Qs else Qs[0] is Qs[1])
     if not E.eq(Pref, Prec):
         detail = {"suite": S.name, "hash": hname, "msg": ev["msg"], "dst": ev["dst"], "Q0": pstr(F, Qs[0]), "Q1": pstr(F, Qs[1]),
                   "h_eff": hex(S.h_eff), "expected": pstr(F, Pref), "got": pstr(F, Prec)}
-        if E.eq(Rsum, Prec):
-            detail["diagnosis"] = "P equals Q0 + Q1: the cofactor was not cleared"
+        try:
+            if E.eq(E.add(Qs[0], Qs[1]), Prec):
+                detail["diagnosis"] = "P equals Q0 + Q1: the cofactor was not cleared"
+        except R.IncompleteAddition:
+            pass
         out.violation(f"h2c/{S.name}/hash/value", detail, item)
         # independent subgroup / curve predicates on the recorded point
         if not E.on_curve(Prec):
             out.violation(f"h2c/{S.name}/hash/off-curve", detail, item)
         else:
             try:
-                if not E.eq(E.mul(S.r, Prec), E.identity):
-                    out.violation(f"h2c/{S.name}/hash/not-in-subgroup", detail, item)
+                in_subgroup = E.eq(E.mul(S.r, Prec), E.identity)
             except R.IncompleteAddition:
-                pass
+                in_subgroup = False   # r * P is a torsion point without affine Edwards coordinates: not the identity
+            if not in_subgroup:
+                out.violation(f"h2c/{S.name}/hash/not-in-subgroup", detail, item)
     else:
         out.sample(f"hash/{S.name}", {"kind": "py hash_to_curve agreed", "suite": S.name, "hash": hname, "msg": ev["msg"][:64],
                                        "dst_len": len(dst), "P": pstr(F, Prec)})
@@ -481,6 +487,11 @@ def main():
         "notes": notes, "violations": list(total.violations.values()), "harness_errors": total.harness_errors[:40],
         "wall_s": round(time.time() - t0, 2),
     }
+    # large logs of clean runs are not kept (the run is reproducible from tier + seed); anything with a finding is
+    if (not total.violations and not total.harness_errors and not missing and "--keep-events" not in a
+            and os.path.exists(ev_path) and os.path.getsize(ev_path) > (64 << 20)):
+        post["notes"].append(f"event log ({os.path.getsize(ev_path) >> 20} MiB) removed after a clean check; pass --keep-events to keep it")
+        os.remove(ev_path)
     json.dump(post, open(report + ".post.json", "w"), indent=1)
     print(f"check_h2c: {total.evaluations} events, {len(total.violations)} violation signature(s), "
           f"{len(total.harness_errors)} harness error(s), missing classes {missing}, {post['wall_s']} s")
